@@ -3,7 +3,7 @@
    shape written by the encoder and the one read by the decoder. *)
 From Coq Require Import String.
 From Coq Require Import List NArith Bool.
-From Sia Require Import Prim.Tok Codec.Schema Codec.Shape Codec.Irregular Gen.Schemas Codec.Golden Codec.Oblig.
+From Sia Require Import Prim.Tok Codec.Schema Codec.Shape Codec.Canonical Codec.PolicyWire Codec.Tagged Codec.Irregular Gen.Schemas Codec.Wire Codec.Golden Codec.Oblig.
 Import ListNotations.
 
 (* generic codec: decoding an encoding (followed by anything) returns the value and the rest *)
@@ -14,21 +14,21 @@ Theorem C11_roundtrip_generic : forall (recog : string -> bytes -> option (bytes
 Proof. exact roundtrip. Qed.
 Print Assumptions C11_roundtrip_generic.
 
-(* every generated type: decoder shape = encoder shape, and the round trip holds for all its values *)
+(* every generated type: decoder shape = encoder shape, and the round trip holds for all its values; the hand-modelled
+   fragments V1Currency, V1SiafundOutput, SpendPolicy, V2FileContractResolution and V2Transaction are all recognised *)
 Theorem C11_roundtrip_all_types : forall n e d, In (n, e, d) gen_types ->
   exists s, to_schema e = Some s /\ to_schema d = Some s /\
-    forall v rest, wt rvalid s v -> dec recog s (enc s v ++ rest)%list = Some (v, rest).
+    forall v rest, wt rvalid_all s v -> dec recog_all s (enc s v ++ rest)%list = Some (v, rest).
 Proof. exact roundtrip_all. Qed.
 Print Assumptions C11_roundtrip_all_types.
 
 (* canonical and field-complete at the byte level: two values of a generated type with equal
    encodings are equal (every component of the shape influences the bytes) *)
 Theorem C11_injective_all_types : forall n e d s, In (n, e, d) gen_types -> to_schema e = Some s ->
-  forall v w, wt rvalid s v -> wt rvalid s w -> enc s v = enc s w -> v = w.
+  forall v w, wt rvalid_all s v -> wt rvalid_all s w -> enc s v = enc s w -> v = w.
 Proof. exact injective_all. Qed.
 Print Assumptions C11_injective_all_types.
 
-(* re-checked against the regenerated shapes on every run *)
 Theorem C11_schemas_agree : forallb agree gen_types = true.
 Proof. exact schemas_agree. Qed.
 Print Assumptions C11_schemas_agree.
@@ -53,3 +53,76 @@ Print Assumptions C11_v1siafundoutput_recognised.
 Example C11_nonvacuous : exists s, to_schema enc_types_FileContract = Some s /\ wfb s = true /\
   existsb (fun t => String.eqb (fst (fst t)) "types.FileContract") gen_types = true.
 Proof. eexists. split; [vm_compute; reflexivity|]. split; vm_compute; reflexivity. Qed.
+
+(* ---- truncation ---- *)
+(* generic codec: decoding never depends on the bytes after the value ... *)
+Theorem C11_decoder_ignores_suffix : forall (recog : string -> bytes -> option (bytes * bytes)),
+  (forall name b x r q, recog name b = Some (x, r) -> recog name (b ++ q)%list = Some (x, (r ++ q)%list)) ->
+  forall s b v r q, dec recog s b = Some (v, r) -> dec recog s (b ++ q)%list = Some (v, (r ++ q)%list).
+Proof. exact dec_extend. Qed.
+Print Assumptions C11_decoder_ignores_suffix.
+
+(* ... so for every generated type no proper prefix of an encoding decodes (a truncated encoding is an error, never a
+   partial value) *)
+Theorem C11_truncation_all_types : forall n e d, In (n, e, d) gen_types ->
+  exists s, to_schema e = Some s /\ to_schema d = Some s /\
+    forall v p q, wt rvalid_all s v -> enc s v = (p ++ q)%list -> q <> [] -> dec recog_all s p = None.
+Proof. exact truncation_all. Qed.
+Print Assumptions C11_truncation_all_types.
+
+(* ---- decoder canonicity ---- *)
+(* generic codec: whatever the decoder accepts is exactly the encoding of the value it returns followed by the
+   bytes it left, and that value is well typed; hence one accepted encoding per value *)
+Theorem C11_decoder_canonical_generic : forall (recog : string -> bytes -> option (bytes * bytes)) (rvalid : string -> bytes -> Prop),
+  (forall name b x r, byte_okl b -> recog name b = Some (x, r) -> b = (x ++ r)%list /\ rvalid name x) ->
+  forall s b v r, byte_okl b -> dec recog s b = Some (v, r) -> b = (enc s v ++ r)%list /\ wt rvalid s v.
+Proof. exact dec_canonical. Qed.
+Print Assumptions C11_decoder_canonical_generic.
+
+(* every generated type that does not contain a V2Transaction (whose decoder accepts non-canonical masks) *)
+Theorem C11_canonical_all_types : forall n e d, In (n, e, d) gen_types ->
+  exists s, to_schema e = Some s /\ to_schema d = Some s /\
+    (mentions txn_name s = false ->
+     forall b v r, byte_okl b -> dec recog_all s b = Some (v, r) -> b = (enc s v ++ r)%list /\ wt rvalid_all s v).
+Proof. exact canonical_all. Qed.
+Print Assumptions C11_canonical_all_types.
+
+(* ---- V2FileContractResolution (tagged union) and V2Transaction (versioned, bit-masked record) ---- *)
+Theorem C11_resolution_recognised : forall b rest, valid_resolution b -> recog_resolution (b ++ rest)%list = Some (b, rest).
+Proof. exact (recog_union_ok recog rvalid recog_ok rvalid_nonempty _ _ res_pre_wf res_cases_wf). Qed.
+Print Assumptions C11_resolution_recognised.
+
+Theorem C11_v2transaction_recognised : forall b rest, valid_txn b -> recog_txn (b ++ rest)%list = Some (b, rest).
+Proof. exact (recog_masked_ok recog1 rvalid1 recog1_ok rvalid1_nonempty recog1_extend _ _ txn_fields_wf). Qed.
+Print Assumptions C11_v2transaction_recognised.
+
+Theorem C11_wire_parts_pinned : forallb part_ok [
+  (enc_types_V2FileContractElement, dec_types_V2FileContractElement); (enc_types_V2FileContractRenewal, dec_types_V2FileContractRenewal);
+  (enc_types_V2StorageProof, dec_types_V2StorageProof); (enc_types_V2FileContractExpiration, dec_types_V2FileContractExpiration);
+  (HSlice enc_types_V2SiacoinInput, HSlice dec_types_V2SiacoinInput); (HSlice enc_types_V2SiacoinOutput, HSlice dec_types_V2SiacoinOutput);
+  (HSlice enc_types_V2SiafundInput, HSlice dec_types_V2SiafundInput); (HSlice enc_types_V2SiafundOutput, HSlice dec_types_V2SiafundOutput);
+  (HSlice enc_types_V2FileContract, HSlice dec_types_V2FileContract); (HSlice enc_types_V2FileContractRevision, HSlice dec_types_V2FileContractRevision);
+  (HSlice enc_types_V2FileContractResolution, HSlice dec_types_V2FileContractResolution); (HSlice enc_types_Attestation, HSlice dec_types_Attestation);
+  (HBytes, HBytes); (enc_types_Address, dec_types_Address); (enc_types_V2Currency, dec_types_V2Currency)] = true.
+Proof. exact wire_parts_pinned. Qed.
+Print Assumptions C11_wire_parts_pinned.
+
+(* ---- SpendPolicy wire format (version byte, opcode tree, nesting limit 32) ---- *)
+Theorem C11_policy_roundtrip : forall p rest, pw_ok max_policy_levels p ->
+  dec_pw max_policy_levels (enc_pw p ++ rest)%list = Some (p, rest).
+Proof. exact (dec_pw_enc max_policy_levels). Qed.
+Print Assumptions C11_policy_roundtrip.
+
+Theorem C11_policy_canonical : forall b p r, byte_okl b -> dec_pw max_policy_levels b = Some (p, r) ->
+  b = (enc_pw p ++ r)%list /\ pw_ok max_policy_levels p.
+Proof. exact (dec_pw_canonical max_policy_levels). Qed.
+Print Assumptions C11_policy_canonical.
+
+Theorem C11_policy_recognised : forall b rest, valid_policy b -> recog_policy (b ++ rest)%list = Some (b, rest).
+Proof. exact recog_policy_ok. Qed.
+Print Assumptions C11_policy_recognised.
+
+(* the unlock-conditions leaf is the generated UnlockConditions layout *)
+Theorem C11_policy_uc_layout : to_schema enc_types_UnlockConditions = Some uc_schema /\ to_schema dec_types_UnlockConditions = Some uc_schema.
+Proof. exact uc_schema_pinned. Qed.
+Print Assumptions C11_policy_uc_layout.
